@@ -109,11 +109,30 @@ theorem tree_roundtrip (v : VersionIf) (hu : 512 ≤ v.pageSize) (hu2 : v.pageSi
       Elementwise (NodeReported v.pageSize) (T.nodes table) t := by
   exact Proofs.TreeParse.tree_nodes v hu hu2 table fuel T hT hf
 
+/-- the same for the repaired code, which refuses a page reached twice (`parseBTreeW … []`: the
+walk starts with an empty set): a laid-out tree *whose page numbers are pairwise distinct*
+(`TTree.PagesDistinct`, true of every b-tree SQLite writes) is constructed into the same list -/
+theorem tree_roundtrip_walk (v : VersionIf) (hu : 512 ≤ v.pageSize) (hu2 : v.pageSize ≤ 65536) (table : Bool)
+    (fuel : Nat) (T : TTree) (hT : TreeLaidOut v table T) (hf : T.frames ≤ fuel) (hpd : T.PagesDistinct) :
+    ∃ t, parseBTreeW v fuel T.page (T.kind table) [] = .ok t ∧
+      Elementwise (NodeReported v.pageSize) (T.nodes table) t := by
+  exact Proofs.TreeParse.tree_nodes_walk v hu hu2 table fuel T hT hf hpd
+
+/-- `TTree.PagesDistinct` does not depend on the b-tree family it is stated with -/
+theorem pagesDistinct_iff (table : Bool) (T : TTree) :
+    T.PagesDistinct ↔ ((T.nodes table).map (·.1)).Nodup := by
+  exact Proofs.TreeParse.pagesDistinct_iff table T
+
 /-- `Version.get_b_tree_root_page` constructs the root with the class its type byte names (on
-page 1: the byte after the database header) -/
+page 1: the byte after the database header), starting the walk with an empty set of pages -/
 theorem root_dispatch (v : VersionIf) (n : Nat) (L : PageLayout) (hps : PageServed v n L) (fuel : Nat) :
-    getBTreeRoot v fuel n = parseBTree v fuel n L.kind := by
+    getBTreeRoot v fuel n = parseBTreeW v fuel n L.kind [] := by
   exact Proofs.TreeParse.root_dispatch v n L hps fuel
+
+/-- the same for the code before the repair -/
+theorem root_dispatch_pure (v : VersionIf) (n : Nat) (L : PageLayout) (hps : PageServed v n L) (fuel : Nat) :
+    getBTreeRootPure v fuel n = parseBTree v fuel n L.kind := by
+  exact Proofs.TreeParse.root_dispatch_pure v n L hps fuel
 
 /-- the leaf cells / all cells of the abstract tree are those of its nodes, in node order: the
 order in which `leafCells` (hence `aggregate_leaf_cells`) visits them -/
@@ -132,31 +151,32 @@ theorem aggregate_spec (pages : List BPage) :
   exact Proofs.TreeParse.aggregate_spec pages
 
 /-- **C01.**  Every live row of a table b-tree laid out as SQLite lays it out (rowids pairwise
-distinct, as in every table) is recovered by `get_b_tree_root_page` + `aggregate_leaf_cells` with
+distinct, as in every table; page numbers pairwise distinct, as in every b-tree — `hpd`: the
+repaired code refuses a page reached twice) is recovered by `get_b_tree_root_page` + `aggregate_leaf_cells` with
 the same rowid and the same column values: the list of (rowid, columns) reported — by the leaf
 pages and by the digest dictionary — is the list stored, in traversal order; none is lost, none is
 invented, none is merged. -/
 theorem table_tree_rows (v : VersionIf) (hu : 512 ≤ v.pageSize) (hu2 : v.pageSize ≤ 65536)
     (T : TTree) (hT : TreeLaidOut v true T) (fuel : Nat) (hf : T.frames ≤ fuel)
-    (hnd : (T.leafCells.map (·.rowid)).Nodup) :
+    (hpd : T.PagesDistinct) (hnd : (T.leafCells.map (·.rowid)).Nodup) :
     ∃ t, getBTreeRoot v fuel T.page = .ok t ∧
       Elementwise (fun s c => CellSpec.ReportedAs v.pageSize s c) T.leafCells (leafCells t) ∧
       (leafCells t).map Spec.cellRow = T.leafCells.map CellSpec.row ∧
       (aggregateLeafCells t []).1 = T.leafCells.length ∧
       (aggregateLeafCells t []).2.1.map (fun e => Spec.cellRow e.2) = T.leafCells.map CellSpec.row := by
-  exact Proofs.TreeParse.table_tree_rows v hu hu2 T hT fuel hf hnd
+  exact Proofs.TreeParse.table_tree_rows v hu hu2 T hT fuel hf hpd hnd
 
 /-- **C14.**  Every entry of an index b-tree laid out as SQLite lays it out — the cells of all
 pages, interior pages included, since index interior cells carry entries — is recovered with the
 same column values; the leaf entries are what `aggregate_leaf_cells` counts. -/
 theorem index_tree_entries (v : VersionIf) (hu : 512 ≤ v.pageSize) (hu2 : v.pageSize ≤ 65536)
-    (T : TTree) (hT : TreeLaidOut v false T) (fuel : Nat) (hf : T.frames ≤ fuel) :
+    (T : TTree) (hT : TreeLaidOut v false T) (fuel : Nat) (hf : T.frames ≤ fuel) (hpd : T.PagesDistinct) :
     ∃ t, getBTreeRoot v fuel T.page = .ok t ∧
       Elementwise (fun s c => CellSpec.ReportedAs v.pageSize s c) T.allCells (t.flatMap (·.cells)) ∧
       (t.flatMap (·.cells)).map Spec.cellRow = T.allCells.map CellSpec.row ∧
       Elementwise (fun s c => CellSpec.ReportedAs v.pageSize s c) T.leafCells (leafCells t) ∧
       (aggregateLeafCells t []).1 = T.leafCells.length := by
-  exact Proofs.TreeParse.index_tree_entries v hu hu2 T hT fuel hf
+  exact Proofs.TreeParse.index_tree_entries v hu hu2 T hT fuel hf hpd
 
 /-! ### non-vacuity
 
@@ -176,9 +196,19 @@ open Proofs.TreeDemo in
 example : PageLaidOut 512 (packBytes 512 L2) L2 := Proofs.TreeDemo.demo_page2
 
 open Proofs.TreeDemo in
-/-- the whole tree satisfies `TreeLaidOut`, and needs 5 frames -/
-example : TreeLaidOut demoV true demoTree ∧ demoTree.frames = 5 :=
-  ⟨Proofs.TreeDemo.demo_laid_out, Proofs.TreeDemo.demo_frames⟩
+/-- the whole tree satisfies `TreeLaidOut`, needs 5 frames, and its page numbers are distinct -/
+example : TreeLaidOut demoV true demoTree ∧ demoTree.frames = 5 ∧ demoTree.PagesDistinct :=
+  ⟨Proofs.TreeDemo.demo_laid_out, Proofs.TreeDemo.demo_frames, Proofs.TreeDemo.demo_distinct⟩
+
+open Proofs.TreeDemo in
+/-- what `tree_roundtrip_walk` yields for it: the pages 2, 4, 3 -/
+example : ∃ t, parseBTreeW demoV 5 2 .tableInterior [] = .ok t ∧ t.map (·.number) = [2, 4, 3] := by
+  obtain ⟨t, ht, hn⟩ := tree_roundtrip_walk demoV (by decide) (by decide) true 5 demoTree
+    Proofs.TreeDemo.demo_laid_out (by rw [Proofs.TreeDemo.demo_frames]; exact Nat.le_refl 5)
+    Proofs.TreeDemo.demo_distinct
+  refine ⟨t, ht, ?_⟩
+  rw [Proofs.TreeParse.reported_numbers _ _ _ hn]
+  simp [demoTree, TTree.nodes]
 
 open Proofs.TreeDemo in
 /-- what `table_tree_rows` yields for it: the three rows, right-most subtree first -/
